@@ -10,7 +10,7 @@ CONSTANTS
 INVARIANT H_PipeGrammatical
 INVARIANT H_PipeYamlErrorOnly
 INVARIANT H_Terminates
-INVARIANT H_TokenMarks
-INVARIANT H_ErrorMarks
-INVARIANT H_TokenGrammar
+INVARIANT LP_TokenMarks
+INVARIANT LP_ErrorMarks
+INVARIANT LP_TokenGrammar
 INVARIANT Report
